@@ -45,7 +45,8 @@ pub fn def_json(def: &LRNonStreamingLexerDef<DefaultLexerTypes<u32>>) -> Value {
             json!({"named": r.name().is_some(), "name": r.name().unwrap_or(""),
                    "tok": r.tok_id().map(|x| x as i64).unwrap_or(-1),
                    "name_span": [r.name_span().start(), r.name_span().end()],
-                   "re": r.re_str(), "states": r.start_states(), "op": op, "tgt": tgt})
+                   "re": r.re_str(), "re_cp": r.re_str().chars().map(|c| c as u32).collect::<Vec<_>>(),
+                   "states": r.start_states(), "op": op, "tgt": tgt})
         })
         .collect::<Vec<_>>();
     let states = def
@@ -117,7 +118,8 @@ pub fn main(args: &[String]) -> i32 {
                     use cfgrammar::Spanned;
                     json!({"kind": format!("{}", e), "spans": e.spans().iter().map(|s| [s.start(), s.end()]).collect::<Vec<_>>()})
                 }).collect::<Vec<_>>();
-                writeln!(out, "{}", json!({"ev": "lexdef_err", "errors": errs})).unwrap();
+                let bounds: Vec<usize> = (0..=l.len()).filter(|o| l.is_char_boundary(*o)).collect();
+                writeln!(out, "{}", json!({"ev": "lexdef_err", "errors": errs, "len": l.len(), "bounds": bounds})).unwrap();
                 continue;
             }
             Ok(Ok(d)) => d,
